@@ -571,6 +571,9 @@ def gen_spec(rng, size="small"):
     n_a = rng.randint(1, 6 if size == "small" else 14)
     # titles with characters that must be escaped in a query string
     anames = [f"{rng.choice(['Art', 'Über', 'Page', 'Art', 'Page', 'C++', 'Q&A', 'A=b', '50%'])} {i}" for i in range(n_a)]
+    if rng.random() < 0.25:
+        # a title that is a number (a year): not to be mistaken for a revision id (those stay below 7000)
+        anames[rng.randrange(n_a)] = str(7000 + rng.randrange(3000))
     for an in anames:
         revs = [[next_rev(), article_text()] for _ in range(rng.randint(1, 4))]
         us, anon = users()
